@@ -441,7 +441,8 @@ class C08(base.Engine):
             if op['op'] == 'advance':
                 sim_ns += abs(op['ns'])
             if ev.get('inv_bad'):
-                problems.append(('inv:%s' % ev['inv_bad'][0][0], {'op': i, 'bad': ev['inv_bad']}))
+                # host-state / sentinel anomalies are C12's business: counted, not judged here
+                stats['c12_invariant_anomalies'] += 1
             if op['op'] != 'query':
                 continue
             res = ev['res']
